@@ -94,12 +94,12 @@ def calc_sig_dur(asig, start=0.05, end=0.95, im=None, se=False):
 def calculate_peak(motion):
     """Calculates the peak absolute response"""
     deprecation("Use calc_peak instead of calculate_peak")
-    return max(abs(min(motion)), max(motion))
+    return max(abs(float(min(motion))), float(max(motion)))
 
 
 def calc_peak(motion):
     """Calculates the peak absolute response"""
-    return max(abs(min(motion)), max(motion))
+    return max(abs(float(min(motion))), float(max(motion)))
 
 
 def calc_sir(acc_sig):
